@@ -256,6 +256,7 @@ func (m *Module) checkIfStopComplete() {
 		atomic.LoadInt32(m.taskCnt) == 0 &&
 		atomic.LoadInt32(m.microTaskCnt) == 0 {
 
+		verifPoint("modules.stopcheck.complete", m.Name)
 		if m.stopCompleted.SetToIf(false, true) {
 			m.Lock()
 			defer m.Unlock()
@@ -294,15 +295,19 @@ func (m *Module) stopAllTasks(reports chan *report) {
 	// Manually set the control function flag in order to stop completion by race
 	// condition before stop function has even started.
 	m.ctrlFuncRunning.Set()
+	verifPoint("modules.stop.ctrlflag", m.Name)
 
 	// Set stop flag for everyone checking this flag before we activate any stop trigger.
 	m.stopFlag.Set()
+	verifPoint("modules.stop.stopflag", m.Name)
 
 	// Cancel the context to notify all workers and tasks.
 	m.cancelCtx()
+	verifPoint("modules.stop.cancelled", m.Name)
 
 	// Start stop function.
 	stopFnError := m.startCtrlFn("stop module", m.stopFn)
+	verifPoint("modules.stop.waiting", m.Name)
 
 	// wait for results
 	select {
